@@ -6,6 +6,7 @@ import (
 	"os"
 
 	"verif/harness/internal/c01"
+	"verif/harness/internal/c02"
 	"verif/harness/internal/c05"
 	"verif/harness/internal/c08"
 	"verif/harness/internal/c14"
@@ -26,6 +27,8 @@ func main() {
 		os.Exit(c14.Main(os.Args[2:]))
 	case "c15":
 		os.Exit(c15.Main(os.Args[2:]))
+	case "c02":
+		os.Exit(c02.Main(os.Args[2:]))
 	case "c05":
 		os.Exit(c05.Main(os.Args[2:]))
 	}
